@@ -22,6 +22,7 @@ _STREAMS_READY = False
 STREAM_DEFAULTS = {
     "syn9": {"timeShiftBufferDepth": 35, "leeway": 13, "minimumUpdatePeriod": 6,
              "availabilityStartTime": "2022-03-04T05:06:07Z"},
+    "bbbd": {"drmSelection": "playready", "timeShiftBufferDepth": 50},
 }
 
 
@@ -99,10 +100,17 @@ def ensure_streams(app: appboot.App):
     a = mp4synth.make_track("audio", 48000, [96256, 575488, 48128, 144384], samples_per_segment=[94, 562, 47, 141],
                             seed=92, track_id=2, sample_durations_in="trun", seq_step=2)
     mp4synth.register(app, "syn9", "Synthetic with stream defaults", {"syn9_v1": v, "syn9_a1": a}, timing_from="syn9_v1")
-    with app.ctx() as models:
-        st = models.Stream.get(directory="syn9")
-        st.defaults = dict(STREAM_DEFAULTS["syn9"])
-        models.db.session.commit()
+    # bbbd: the bbb fixture files once more (clear and encrypted twins), with a stored DRM selection and depth:
+    # a manifest requested without any option lists the encrypted Representations and writes no drm= into the
+    # media URLs, so the media handlers have to apply the same stored defaults
+    src = appboot.FIXTURES / "bbb"
+    stems = sorted(p_.stem for p_ in src.glob("bbb_*.mp4"))
+    app.add_stream("bbbd", "bbb with stored DRM default", [("dflt" + st_[3:], src / f"{st_}.mp4") for st_ in stems])
+    for name_ in STREAM_DEFAULTS:
+        with app.ctx() as models:
+            st = models.Stream.get(directory=name_)
+            st.defaults = dict(STREAM_DEFAULTS[name_])
+            models.db.session.commit()
     _STREAMS_READY = True
 
 
